@@ -80,10 +80,10 @@ Canon(m) ==
                                                      /\ Take(k, n + 1) = Take(k0, n + 1))
        IN IF cp > 0
           THEN MkExt(Take(k0, cp),
-                     Canon([k \in {Drop(x, cp) : x \in K} |-> m[Take(k0, cp) \o k]]))
+                     Canon(TLCEval([k \in {Drop(x, cp) : x \in K} |-> m[Take(k0, cp) \o k]])))
           ELSE MkBranch([i \in 1..16 |->
                            LET Ki == {k \in K : k # <<>> /\ Head(k) = i - 1} IN
-                           Canon([k \in {Tail(x) : x \in Ki} |-> m[<<i - 1>> \o k]])],
+                           Canon(TLCEval([k \in {Tail(x) : x \in Ki} |-> m[<<i - 1>> \o k]]))],
                         IF <<>> \in K THEN m[<<>>] ELSE NoVal)
 
 \* DEFINITION: value of key k in the trie denoted by the nested node n
@@ -283,7 +283,7 @@ SubSegs(n) == CASE n.t = "ext" -> <<n.p>>
                 [] n.t = "branch" ->
                      LET RECURSIVE F(_)
                          F(i) == IF i > 16 THEN <<>>
-                                 ELSE (IF n.c[i].t # "blank" THEN << <<i - 1>> >> ELSE <<>>) \o F(i + 1)
+                                 ELSE (IF n.c[i].t # "blank" THEN << <<i - 1>> >> ELSE <<>>) \o F(TLCEval(i + 1))
                      IN F(1)
                 [] OTHER -> <<>>
 NodeValue(n) == IF n.t \in {"leaf", "branch"} THEN n.v ELSE NoVal
@@ -333,6 +333,52 @@ NeededNodes(r, k) == IF r.t = "blank" THEN {}
 VerifyProof(r, k, Pset, bugs) ==
   LET g == GetOut(r, k, Only(Pset), bugs) IN
   IF g.kind = "missing" THEN [kind |-> "bad", v |-> NoVal] ELSE [kind |-> g.kind, v |-> g.v]
+
+\* ------------------------------------------------------------------------
+\* iteration (trie/iter.py)
+\* ------------------------------------------------------------------------
+NoneK == [some |-> FALSE, k |-> <<>>]
+SomeK(k) == [some |-> TRUE, k |-> k]
+\* DEFINITION: the smallest stored key strictly greater than q (byte-string order on keys
+\* is the lexicographic order on their nibble sequences), the sorted key sequence
+SuccOf(K, q) == LET G == {k \in K : SeqLess(q, k)} IN
+                IF G = {} THEN NoneK ELSE SomeK(CHOOSE k \in G : \A x \in G : x = k \/ SeqLess(k, x))
+MinKey(K) == IF K = {} THEN NoneK ELSE SomeK(CHOOSE k \in K : \A x \in K : x = k \/ SeqLess(k, x))
+RECURSIVE SortedKeys(_)
+SortedKeys(K) == IF K = {} THEN <<>>
+                 ELSE LET m == MinKey(K).k IN <<m>> \o SortedKeys(K \ {m})
+\* the child reached by following one whole sub-segment of an annotated node
+\* (TLCEval: TLC passes operator arguments unevaluated and re-evaluates them at every use;
+\* forcing them at recursion sites keeps the recursions linear)
+ChildVia(n, s) == TLCEval(TravFrom(n, s, Complete).n)
+\* TRANSCRIPTION of NodeIterator._get_next_key
+RECURSIVE NextKeyIn(_, _)
+NextKeyIn(n, trav) ==
+  IF NodeValue(n) # NoVal THEN SomeK(trav \o Suffix(n))
+  ELSE IF SubSegs(n) = <<>> THEN NoneK
+  ELSE LET s == SubSegs(n)[1] IN NextKeyIn(ChildVia(n, s), TLCEval(trav \o s))
+\* TRANSCRIPTION of NodeIterator._get_key_after (the loop over sub_segments from index i)
+RECURSIVE KeyAfterFrom(_, _, _, _)
+KeyAfterFrom(n, key, trav, i) ==
+  IF i > Len(SubSegs(n))
+  THEN IF SeqLess(key, Suffix(n)) THEN SomeK(trav \o Suffix(n)) ELSE NoneK
+  ELSE LET s == SubSegs(n)[i]
+           keyHead == Take(key, IF Len(key) < Len(s) THEN Len(key) ELSE Len(s))
+       IN IF SeqLess(s, keyHead) THEN KeyAfterFrom(n, key, trav, i + 1)
+          ELSE LET child == ChildVia(n, s)
+                   cp == CPL(key, s)
+               IN IF cp = Len(s)
+                  THEN LET r == TLCEval(KeyAfterFrom(child, TLCEval(Drop(key, cp)), TLCEval(trav \o s), 1)) IN
+                       IF r.some THEN r ELSE KeyAfterFrom(n, key, trav, i + 1)
+                  ELSE NextKeyIn(child, trav \o s)
+KeyAfter(r, key) == KeyAfterFrom(r, key, <<>>, 1)
+\* DEFINITION: the nodes of a trie in pre-order (parents first, children left to right)
+RECURSIVE Preorder(_, _)
+RECURSIVE PreKids(_, _, _)
+PreKids(n, pre, i) == IF i > Len(SubSegs(n)) THEN <<>>
+                      ELSE LET s == SubSegs(n)[i] IN
+                           Preorder(ChildVia(n, s), TLCEval(pre \o s)) \o PreKids(n, pre, i + 1)
+Preorder(n, pre) == << [p |-> pre, n |-> n] >> \o PreKids(n, pre, 1)
 
 \* ------------------------------------------------------------------------
 \* DEFINITION (C08), from the key set alone: what a traversal of path p must
